@@ -79,6 +79,19 @@ theorem C05_range (m : Msg) (h : m.repB = false) : m.enc.err ≠ none := by
   rw [this] at h
   cases h
 
+/-- **an AVP on its own** (`Avp::encode_to`, which an application may call directly): success is never reported for an AVP the
+wire cannot carry - a Time outside the range, a length of 2^24 or more, at any nesting level below it -/
+theorem C05_avp_range (a : Avp) (h : a.repB = false) : a.enc.err ≠ none := by
+  intro he
+  have := Avp.enc_ok_rep a he
+  rw [this] at h
+  cases h
+
+/-- ... and an AVP whose own length does not fit the 24-bit field is refused before a single octet is produced -/
+theorem C05_avp_too_long (code : UInt32) (vendor : Option UInt32) (m p : Bool) (len padding : Nat) (v : Value)
+    (h : len > 0xFFFFFF) : (Avp.mk code vendor m p len padding v).enc = ⟨[], some .tooLong⟩ := by
+  simp [Avp.enc, encHdr, h, Enc.andThen]
+
 /-- **C05, completeness of a success.** For a message whose bookkeeping is consistent (every built or faithfully
 decoded message, C01_run), an encoding that reports success against a writer that dies after `k` octets has handed
 over exactly the complete RFC 6733 frame of its content, whose length field equals the number of octets. -/
